@@ -23,6 +23,10 @@ type gramCase struct {
 	AllowTrailing bool          `json:"allow_trailing,omitempty"`
 	Text          string        `json:"grammar_text,omitempty"`   // human-readable rendering (informational)
 	PRoot         bool          `json:"parseable_root,omitempty"` // C10: the root production is user code that accepts any token stream
+	// Derived > 0 (C11): Input2 is parsed by a parser derived for that inner production (ParserForProduction) after the
+	// grammar's own parser has parsed Input (DerivedFirst: before)
+	Derived      int  `json:"derived,omitempty"`
+	DerivedFirst bool `json:"derived_first,omitempty"`
 }
 
 // parsed is everything one (grammar, input) evaluation produced.
